@@ -127,6 +127,9 @@ class C15(Check):
             elif len(f) >= 58 and f[12:14] == b"\x86\xdd" and f[20] == 58: self._l4off[name] = 54
         self._known = common.Findings()
         self.fixes = self.detect_fixes()
+        fr = dict(self._frames)
+        self._disturbers = [bytes(fr[n]) for n in ("tcp-opts", "lldp-full", "dns-resp", "igmp-v3", "dhcp-offer", "ip6-ra", "ip6-ext", "gre-route", "rip-resp", "tcp-syn-mptcp",
+                                                    "ip-opts", "snap-arp") if n in fr]
         # the event handlers that consume PacketIn.parsed in a stock controller: the learning switch and link discovery
         self.l2 = importlib.import_module("pox.forwarding.l2_learning")
         self.disc = importlib.import_module("pox.openflow.discovery")
@@ -482,22 +485,31 @@ class C15(Check):
             obs["chain"] = self.chain(p, b)
             obs["skel"] = self.skeleton(p)
             obs["slices"] = self._slices_ok(p, b)
-            for stage, f in (("pack", lambda: p.pack().hex()), ("str", lambda: (str(p), "ok")[1]), ("dump", lambda: (p.dump(), "ok")[1])):
+            # the same parse result used again and again (HARDENING 1-2): str(), pack(), str() once more, dump(), pack() once more.
+            # Every one must return, and re-serialising must give the same bytes (hdr() may fill in lengths / checksums, but only once).
+            for stage, key, f in (("str", "str0", lambda: (str(p), "ok")[1]), ("pack", "pack", lambda: p.pack().hex()), ("str", "str", lambda: (str(p), "ok")[1]),
+                                  ("dump", "dump", lambda: (p.dump(), "ok")[1]), ("pack", "pack2", lambda: p.pack().hex())):
                 try:
-                    obs[stage] = f()
+                    obs[key] = f()
                 except BaseException as e:
                     if isinstance(e, (KeyboardInterrupt, SystemExit)): raise
-                    obs[stage] = self._exc(stage, e)
+                    obs[key] = self._exc(stage, e)
+            if isinstance(obs["str0"], dict) and not isinstance(obs["str"], dict): obs["str"] = obs["str0"]      # report the first failure of str()
+            if obs["pack2"] == obs["pack"] or isinstance(obs["pack"], dict): del obs["pack2"]                    # kept only when it differs
+            del obs["str0"]
         # the path every handler takes: PacketIn.parsed on an ofp_packet_in carrying the frame (the same constructor call once more:
         # done for the fixed corpus and one generated case in four)
         how = case.get("how", "")
         if how.startswith(("key", "set", "marks", "splice", "indel", "random", "nest")) and int(case["hex"][-2:] or "0", 16) % 4 != 3:
             return obs
         try:
+            # another frame goes through the same process in between (HARDENING 1): nothing of it may show up in this frame's second parse
+            self._disturb(b)
             ev = self.PacketIn(self.con, self.ofp_packet_in(data=b, in_port=1))
             q = ev.parsed
             obs["pktin"] = self.skeleton(q)
             obs["pktin_same_object"] = ev.parsed is q
+            if p is not None and self.chain(q, b) != obs["chain"]: obs["reparse_differs"] = True
         except BaseException as e:
             if isinstance(e, (KeyboardInterrupt, SystemExit)): raise
             obs["pktin"] = self._exc("packet_in", e)
@@ -505,11 +517,23 @@ class C15(Check):
             obs["handlers"] = self.handlers(b)
         return obs
 
+    def _disturb(self, b):
+        """parse a different frame — one rich in lists / options / records of the kind a shared default or a class-level cache would leak"""
+        ds = self._disturbers
+        d = ds[(len(b) + (b[-1] if b else 0)) % len(ds)]
+        if d == b: d = ds[(ds.index(d) + 1) % len(ds)]
+        try: self.ethernet(raw=d)
+        except Exception: pass
+
     @staticmethod
     def _with_handlers(case):
-        """the handler oracle runs on the fixed corpus and on one generated case in sixteen (it costs as much as everything else together)"""
-        how = case.get("how", "")
-        return not how.startswith(("key", "set", "marks", "splice", "indel", "random", "nest")) or int(case["hex"][-2:] or "0", 16) % 16 == 3
+        """the handler oracle runs on every valid frame and witness, every truncation up to 64 bytes and every other longer one, a quarter of the
+        TCP-tail family and one generated case in sixteen (it costs as much as everything else together).  All of these have `pktin`."""
+        how = case.get("how", ""); h = int(case["hex"][-2:] or "0", 16)
+        if how.startswith(("valid", "witness")): return True
+        if how.startswith("trunc"): return h % 2 == 1 or len(case["hex"]) <= 2 * 64        # every short prefix, every other long one
+        if how.startswith("tcp-tail"): return h % 4 == 3
+        return h % 16 == 3
 
     def handlers(self, b):
         """Real PacketIn events for the frame into the handlers of a stock controller: `l2_learning.LearningSwitch._handle_PacketIn` (plain and
@@ -564,6 +588,7 @@ class C15(Check):
         if obs["slices"]: return "progress: " + obs["slices"]
         if "pktin" in obs:
             if obs["pktin"] != sk: return "PacketIn.parsed differs from ethernet(raw): %s vs %s" % (obs["pktin"][:3], sk[:3])
+            if obs.get("reparse_differs"): return "progress: parsing the same bytes again (after another frame) gives a different result"
             if not obs.get("pktin_same_object"): return "PacketIn.parsed re-parses on every access"
         for name, x in sorted(obs.get("handlers", {}).items()):
             return "handler %s raises %s in %s" % (name, x["exc"], x["where"])
@@ -571,6 +596,10 @@ class C15(Check):
         # registered pack()/print findings is NOT reported as failing here: the runner skips the model comparison for failing cases, and the
         # parse chain of those frames (every parsed DHCP, NDP, GRE-with-routing frame) must still be compared with the model.  Those
         # findings are counted in `soft_known` and printed as KNOWN-FINDING lines by extra_evidence().
+        if "pack2" in obs:
+            if isinstance(obs["pack2"], dict):
+                x = obs["pack2"]; return "pack() of the parse result raises %s in %s when called again" % (x["exc"], x["where"])
+            return "progress: pack() of the same parse result gives different bytes the second time"
         fails = ["%s() of the parse result raises %s in %s" % (stage, obs[stage]["exc"], obs[stage]["where"])
                  for stage in ("pack", "str", "dump") if isinstance(obs[stage], dict)]
         for f in fails:
@@ -597,7 +626,7 @@ class C15(Check):
             x = obs["pktin"]; return "packet_in:%s:%s" % (x["where"], x["exc"])
         m = re.match(r"(pack|str|dump)\(\) of the parse result raises", failure)
         if m:
-            x = obs[m.group(1)]
+            x = obs["pack2" if failure.endswith("when called again") else m.group(1)]
             st = "print" if m.group(1) in ("str", "dump") else "pack"
             return "%s:%s:%s" % (st, x["where"], x["exc"])
         m = re.match(r"handler (\w+) raises", failure)
@@ -703,6 +732,9 @@ class C15(Check):
     CSUM_HDR = {"igmp": 12, "ip6-": 8}      # header bytes of a checksum-verified message that get every value with the checksum repaired
     # frames whose innermost header repeats, field for field, that of another corpus frame which gets the full sweep (their keys stay in the
     # sliced sweep): the other DNS headers (dns-query, dns-empty are swept), DHCP fixed parts (dhcp-discover, bootp), the long LLDPDU (lldp-discovery)
+    # … and the rare-value / variant-probe frames, whose headers are those of other frames with particular field values
+    SLICED_PREFIX = ("zero-", "eth-type-", "rip-metric-bounds", "igmp-high-addr", "lldp-full-pox", "lldp-discovery-pox", "dhcp-text-nonascii", "ip6-plen-over-",
+                     "ip6-hbh-frag-frag", "ip6-hbh-frag-end")
     SLICED_INNER = ("dns-resp", "mdns", "dhcp-offer", "dhcp-overload", "dhcp-hlen16", "lldp-full", "rarp-pad", "snap-arp", "snap2-ab-arp", "qinq-arp")
 
     def tcp_tail_cases(self):
@@ -760,7 +792,7 @@ class C15(Check):
         Frames that only differ from an already swept one before the swept byte's header are not repeated."""
         done = set()
         for name, f in self._frames:
-            offs = [] if name in self.SLICED_INNER else list(f.inner_keys)
+            offs = [] if name in self.SLICED_INNER or name.startswith(self.SLICED_PREFIX) else list(f.inner_keys)
             l4 = self._l4off.get(name)
             nh = max([n for p, n in self.CSUM_HDR.items() if name.startswith(p)] + [0])
             if l4 is not None and nh:
@@ -889,8 +921,12 @@ class C15(Check):
         return {"repairs_detected_by_behaviour": self.fixes + self.vars, "variant_notes": self.variant_notes, "known_pack_print_findings_hit": sorted(self.soft_known), "distinct_failure_keys": dict(sorted(self.keys_seen.items())), "technique": self.technique, "level_text": self.level_text, "level_note": self.level_note, "design_ref": self.design_ref}
 
 C15.theorems = ["Pox.C15." + t for t in (
-    "parse_total_with", "parse_total_partial", "parse_total_of_no_known", "parse_total_fixed", "parse_total_guarded", "parse_total", "nesting_defect",
-    "progress_recorded", "repack_total_partial", "print_total_partial", "print_total", "tcp_options_fuel", "refines_c14",
+    # part I: the tree as it is
+    "parse_total", "parse_total_any_var", "progress_recorded", "print_total", "repack_total", "tcp_options_fuel", "refines_c14",
+    # part II: every combination of repairs
+    "parse_total_with", "parse_total_fixed", "parse_total_guarded", "progress_recorded_with", "repack_total_with", "print_total_with",
+    # part III: reverted trees, regression witnesses
+    "parse_total_partial", "parse_total_of_no_known", "nesting_defect",
     "lldp_d14_defect", "lldp_tlv_malformed_defect", "llc_print_defect", "lldp_print_defect", "tcp_repack_defect",
     "known_k5v", "known_k5i", "known_k6", "known_k7", "known_k8", "known_k9", "known_k10", "known_k13", "known_k14", "known_witnesses_repaired",
     "nesting_guard_witness", "dns_names_witness")]
